@@ -122,7 +122,7 @@ Definition check_case (c : case) : list nat :=
   (* the premise of Props/C06.subquery_closed holds for this federation, and its conclusion holds of the plan
      the gateway actually made *)
   (if c_all_federated c then
-     if fed_ok g && match c_plan c with Some p => forallb (plan_closed g) (p_after p) | None => true end
+     if fed_ok g && plain_ok g && match c_plan c with Some p => forallb (plan_closed g) (p_after p) | None => true end
      then [] else [5]
    else []) ++
   (* the premises of Props/C06.federation_transparent hold wherever the harness counts the case as covered by
